@@ -168,3 +168,95 @@ theorem references_are_the_imports (G : Nat → List Nat) (rank : Nat → Nat) (
   fun m hm => (parseNs_spec G rank hr f root [] hf).complete m (by simp [has, get]) hm
 
 end Yardl.Namespaces
+
+/-! ### `flattenNamespaces`: imports before importers, each namespace once -/
+
+namespace Yardl.Namespaces
+
+/-- every element's references occur earlier in the list, and nothing occurs twice -/
+def Ordered (refs : Nat → List Nat) (l : List Nat) : Prop :=
+  l.Nodup ∧ ∀ (pre : List Nat) (m : Nat) (post : List Nat), l = pre ++ m :: post → ∀ i ∈ refs m, i ∈ pre
+
+theorem Ordered.snoc {refs : Nat → List Nat} {l : List Nat} {n : Nat} (h : Ordered refs l) (hn : n ∉ l)
+    (hr : ∀ i ∈ refs n, i ∈ l) : Ordered refs (l ++ [n]) := by
+  refine ⟨?_, ?_⟩
+  · rw [List.nodup_append]
+    refine ⟨h.1, by simp, ?_⟩
+    intro a ha b hb
+    simp only [List.mem_singleton] at hb
+    subst hb
+    exact fun e => hn (e ▸ ha)
+  · intro pre m post heq i hi
+    rcases List.append_eq_append_iff.mp heq with ⟨a', h1, h2⟩ | ⟨c', h1, h2⟩
+    · -- pre = l ++ a' and [n] = a' ++ m :: post
+      cases a' with
+      | nil =>
+        simp only [List.nil_append, List.cons.injEq] at h2
+        simp only [List.append_nil] at h1
+        rw [h1]; exact hr i (h2.1 ▸ hi)
+      | cons x xs =>
+        simp only [List.cons_append, List.cons.injEq] at h2
+        have := h2.2
+        cases xs <;> simp at this
+    · -- l = pre ++ c' and m :: post = c' ++ [n]
+      cases c' with
+      | nil =>
+        simp only [List.nil_append, List.cons.injEq] at h2
+        simp only [List.append_nil] at h1
+        rw [← h1]; exact hr i (h2.1 ▸ hi)
+      | cons x xs =>
+        simp only [List.cons_append, List.cons.injEq] at h2
+        have : l = pre ++ m :: xs := by rw [h1, h2.1]
+        exact h.2 pre m xs this i hi
+
+/-- what one call of `flatten` does -/
+structure FlatSpec (refs : Nat → List Nat) (seen res : List Nat) (n : Nat) : Prop where
+  ext : ∃ added, res = seen ++ added
+  self : n ∈ res
+  ordered : Ordered refs seen → Ordered refs res
+
+theorem flatten_spec (refs : Nat → List Nat) (rank : Nat → Nat) (hr : ∀ n, ∀ i ∈ refs n, rank i < rank n) :
+    ∀ (f n : Nat) (seen : List Nat), rank n < f → FlatSpec refs seen (flatten refs f n seen) n
+  | 0, _, _, h => by omega
+  | f + 1, n, seen, hf => by
+    unfold flatten
+    by_cases hc : seen.contains n = true
+    · simp only [hc, if_true]
+      exact ⟨⟨[], by simp⟩, by simpa using hc, fun h => h⟩
+    · simp only [hc, Bool.false_eq_true, if_false]
+      -- the loop over the references
+      have key : ∀ (l : List Nat) (acc : List Nat), (∀ i ∈ l, i ∈ refs n) →
+          (∃ added, l.foldl (fun acc i => flatten refs f i acc) acc = acc ++ added) ∧
+          (∀ i ∈ l, i ∈ l.foldl (fun acc i => flatten refs f i acc) acc) ∧
+          (Ordered refs acc → Ordered refs (l.foldl (fun acc i => flatten refs f i acc) acc)) := by
+        intro l
+        induction l with
+        | nil => intro acc _; exact ⟨⟨[], by simp⟩, by simp, fun h => h⟩
+        | cons i rest ih =>
+          intro acc hl
+          have hi : rank i < f := by have := hr n i (hl i (by simp)); omega
+          have spec := flatten_spec refs rank hr f i acc hi
+          obtain ⟨⟨a2, e2⟩, m2, o2⟩ := ih (flatten refs f i acc) (fun x hx => hl x (by simp [hx]))
+          obtain ⟨a1, e1⟩ := spec.ext
+          simp only [List.foldl_cons]
+          refine ⟨⟨a1 ++ a2, by rw [e2, e1]; simp⟩, ?_, fun h => o2 (spec.ordered h)⟩
+          intro x hx
+          rcases List.mem_cons.mp hx with rfl | hx
+          · rw [e2]; exact List.mem_append_left _ spec.self
+          · exact m2 x hx
+      obtain ⟨⟨added, e⟩, hm, ho⟩ := key (refs n) seen (fun i hi => hi)
+      by_cases hc2 : (List.foldl (fun acc i => flatten refs f i acc) seen (refs n)).contains n = true
+      · simp only [hc2, if_true]
+        exact ⟨⟨added, e⟩, by simpa using hc2, ho⟩
+      · simp only [hc2, Bool.false_eq_true, if_false]
+        refine ⟨⟨added ++ [n], by rw [e]; simp⟩, by simp, fun h => ?_⟩
+        exact (ho h).snoc (by simpa using hc2) hm
+
+/-- the namespaces the passes and generators see: every namespace once, each after all the namespaces it refers to -/
+theorem flatten_ordered (refs : Nat → List Nat) (rank : Nat → Nat) (hr : ∀ n, ∀ i ∈ refs n, rank i < rank n)
+    (f root : Nat) (hf : rank root < f) :
+    Ordered refs (flatten refs f root []) ∧ root ∈ flatten refs f root [] := by
+  have s := flatten_spec refs rank hr f root [] hf
+  exact ⟨s.ordered ⟨List.nodup_nil, by intro pre m post h; simp at h⟩, s.self⟩
+
+end Yardl.Namespaces
